@@ -40,6 +40,38 @@ def run(ctx):
     worker_loop(ctx, fx)
     pool(ctx, fx)
     on_each(ctx, fx)
+    clamp_agreement(ctx, fx)
+
+
+def clamp_agreement(ctx, fx):
+    ctx.rule("C03.threads.clamp-agreement",
+             "every site that clamps a requested thread count - setActiveThreads, ThreadPool::runInternal, the dedicated-thread "
+             "bookkeeping, BarrierInstance::get - clamps with the reservation-aware bound getMaxUsableThreads(); none uses "
+             "getMaxThreads() (after runDedicated the two differ, and a loop started on more threads than the pool runs loses "
+             "the last block of a do_all and the last ids of an on_each)")
+    sites = []
+    for f in fx.functions:
+        if f["kind"] == "pattern":
+            continue
+        fn = None
+        for b in f.get("blocks", []):
+            for e in b["ev"]:
+                if e.get("k") == "call" and e.get("name") == "min" and len(e.get("a", [])) == 2:
+                    bounds = [x for a in e["a"] for x in walk(a) if isinstance(x, dict) and x.get("k") == "call" and
+                              x.get("name") in ("getMaxThreads", "getMaxUsableThreads")]
+                    if bounds:
+                        sites.append((f, e, bounds[0].get("name")))
+    ctx.floor("thread-count clamp sites", len(sites), 4)
+    seen = set()
+    for f, e, nm in sites:
+        key = (f["qn"], e.get("l"))
+        if key in seen:
+            continue
+        seen.add(key)
+        ctx.ob("C03.threads.clamp-agreement", f["qn"], nm == "getMaxUsableThreads",
+               "line %s clamps the requested count with %s(): after a thread was reserved by runDedicated the loop is started for "
+               "more threads than the pool will run" % (e.get("l"), nm), "%s:%s" % (f["file"], e.get("l")), "L%s" % e.get("l"),
+               fnkey=f["key"])
 
 
 def insts(fx, qn):
